@@ -71,9 +71,32 @@ def gen_case(rng):
     elif k < 0.8:     # constant free, all operators
         s = c01.gen_stack(rng, rng.randint(2, 12), D, 0, ALL_OPS, int_values=(0, 1, 2, 3, -1, -2))
         kind = "all"
-    elif k < 0.9:     # everything
+    elif k < 0.85:    # everything
         s = c01.gen_stack(rng, rng.randint(2, 12), D, 3, ALL_OPS, int_values=(0, 1, 2, 3, -1, -2))
         kind = "allc"
+    elif k < 0.9:     # a power of an even power with a compound, integer-built (rational) exponent: (x^2)^(1/2) is |x|, not x
+        a, b = rng.choice([(1, 2), (3, 2), (1, 4), (2, 3), (-1, 2), (3, 4)])
+        inner = rng.choice(["mul", "pow2", "sq_sum", "pow4"])
+        s = [[0, 0, 0], [-1, 2, 2], [-1, 1, 1]]
+        if inner == "mul":
+            s.append([4, 0, 0])
+        elif inner == "pow2":
+            s.append([10, 0, 1])
+        elif inner == "pow4":
+            s += [[-1, 4, 4], [10, 0, 3]]
+        else:
+            s += [[2, 0, 2], [4, 3, 3]]
+        base_row = len(s) - 1
+        s += [[-1, a, a], [-1, b, b]]
+        ia, ib = len(s) - 2, len(s) - 1
+        if rng.random() < 0.5:
+            s.append([5, ia, ib])                      # a / b
+        else:
+            s += [[-1, -1, -1], [10, ib, len(s)], [4, ia, len(s) + 1]]     # a * b^(-1)
+        s.append([rng.choice([10, 13]), base_row, len(s) - 1])
+        if D > 1 and rng.random() < 0.5:
+            s += [[0, 1, 1], [rng.choice([2, 4]), len(s) - 1, len(s)]]
+        kind = "all"
     else:             # integer arithmetic near and beyond the int64 range of the command array (exact rational oracle)
         s = c01.gen_stack(rng, rng.randint(2, 9), D, 0, [2, 3, 4, 4, 5, 10, 10],
                           int_values=(0, 1, 2, 3, -1, -2, 7, 10, 19, 30, 40, 63, 64, 100, 101, 2 ** 31, 3037000500, -3037000500, 2 ** 62,
